@@ -144,6 +144,7 @@ func (r *R) Logf(format string, args ...any) {
 type Result struct {
 	Viol      *Violation
 	Hash      uint64
+	SchedHash uint64
 	Steps     int
 	Switches  int
 	SimTime   time.Duration
@@ -211,6 +212,7 @@ func RunOne(w *World, tape *sim.Tape, focus string, tier string, trace bool) (re
 			res.Sched = out.Trace
 			res.Pairs = out.SwitchPairs
 			r.Hist(out.SchedHash)
+			res.SchedHash = out.SchedHash
 			if out.LateTimers > 0 {
 				r.Faults["late_timer"] += out.LateTimers
 			}
